@@ -278,6 +278,12 @@ def splice_body(body, ex, item):
         m = re.search(r"\{\s*__hq_loop!\(%d\);" % ordn, body)
         if not m:
             raise UnitError(f"internal: loop marker {ordn} not found in {ex['path']}")
+        if REACH:
+            close = find_balanced(body, m.start(), "{", "}")
+            pe = new_probe("loop-end", f"{ex['path']} loop {ordn}")
+            ps = new_probe("loop-start", f"{ex['path']} loop {ordn}")
+            body = body[:close] + "\n;\nproof { assert(hq_probe(%d)); }\n" % pe + body[close:]
+            body = body[: m.end()] + "\nproof { assert(hq_probe(%d)); }\n" % ps + body[m.end():]
         body = body[: m.start()] + "\n" + inv + "\n{" + body[m.end() :]
     body = body.replace("__hq_assert!(", "assert!(").replace("__hq_unreachable!()", "unreachable!()")
     # hints
@@ -486,6 +492,18 @@ def expand_twins(unit):
     return u2
 
 
+# reachability probes (HQ_REACH=1, audit only): `assert(hq_probe(k))` over an uninterpreted predicate fails exactly when the point is
+# reachable (and, once assumed, constrains nothing else), so a probe that does NOT fail marks a point whose context is contradictory:
+# an inconsistent stand-in contract, invariant or precondition in front of it - or code that really cannot be reached.
+REACH = os.environ.get("HQ_REACH") == "1"
+_PROBES = []
+
+
+def new_probe(kind, where):
+    _PROBES.append({"id": len(_PROBES), "kind": kind, "where": where})
+    return len(_PROBES) - 1
+
+
 class Assembled:
     def __init__(self):
         self.text = ""
@@ -600,6 +618,19 @@ def assemble(unit, workdir, vacuity_twins=False):
         if shape.get("where") and not ex["opts"].get("slice_sig"):
             sig = sig + "\n    " + shape["where"]
         contract = "\n".join(ex["contract"]).rstrip()
+        if REACH and "-> !" not in sig:
+            pid = new_probe("return", ex["path"] + ("__pc" if ex.get("twin_of") else ""))
+            cl = contract.split("\n") if contract else []
+            ei = [i for i, l in enumerate(cl) if re.match(r"\s*ensures\b", l)]
+            if ei:
+                l = cl[ei[0]]
+                rest = re.sub(r"^\s*ensures\b", "", l)
+                cl[ei[0]] = "    ensures hq_probe(%d)," % pid + ("\n        " + rest.strip() if rest.strip() else "")
+            else:
+                di = [i for i, l in enumerate(cl) if re.match(r"\s*decreases\b", l)]
+                at = di[0] if di else len(cl)
+                cl.insert(at, "    ensures hq_probe(%d)," % pid)
+            contract = "\n".join(cl)
         body = splice_body(item["body"], ex, item)
         hdr = item.get("impl_header")
         if ex["opts"].get("slice_sig") and not re.search(r"\bself\b", ex["opts"]["slice_sig"]) and not re.search(r"\bSelf\b", item.get("body") or ""):
@@ -653,6 +684,8 @@ def assemble(unit, workdir, vacuity_twins=False):
             A.panic_sites.append({"fn": fq, "file": item["file"], "mode": build_request(ex, meta)["panics"], **ps})
     if meta.get("broadcasts"):
         emit("broadcast use {" + ", ".join(meta["broadcasts"]) + "};")
+    if REACH:
+        emit("pub uninterp spec fn hq_probe(k: int) -> bool;")
     emit("proof fn __hq_canary() ensures false {}")
     emit("} // verus!")
     emit("fn main() {}")
@@ -690,7 +723,7 @@ def recompute_ranges(text, ranges):
 
 def run_verus(path, rlimit=30, seed=None, threads=None, extra=None, timeout=1500):
     cmd = ["verus", path, "--edition", "2024", "--output-json", "--time-expanded", "--error-format=json",
-           "--multiple-errors", "8", "--rlimit", str(rlimit)]
+           "--multiple-errors", os.environ.get("HQ_MULTIPLE_ERRORS", "8"), "--rlimit", str(rlimit)]
     if seed is not None:
         cmd += ["--smt-option", f"smt.random_seed={seed}", "--smt-option", f"sat.random_seed={seed}"]
     if threads:
